@@ -1,5 +1,405 @@
 package main
 
-import "golang.org/x/tools/go/ssa"
+// If-conversion of small call-free diamonds: both arms of a symbolic branch are executed on clones
+// up to the immediate post-dominator and the two states are merged with ite terms. This is an
+// optimisation only: whenever a region does not qualify the engine forks instead.
 
-func (e *Engine) tryMerge(st *State, f *Frame, x *ssa.If, c *Term) (int, bool) { return 0, false }
+import (
+	"go/token"
+
+	"golang.org/x/tools/go/ssa"
+)
+
+type mergeAbort struct{ why string }
+
+type regionInfo struct {
+	ok     bool
+	join   *ssa.BasicBlock
+	blocks map[*ssa.BasicBlock]bool
+}
+
+var regionCache = map[*ssa.BasicBlock]*regionInfo{}
+
+func (e *Engine) mergeRegion(b *ssa.BasicBlock) *regionInfo {
+	if r, ok := regionCache[b]; ok {
+		return r
+	}
+	r := &regionInfo{}
+	regionCache[b] = r
+	fi := e.info(b.Parent())
+	j := fi.ipdom[b.Index]
+	if j < 0 {
+		return r
+	}
+	join := b.Parent().Blocks[j]
+	blocks := map[*ssa.BasicBlock]bool{}
+	var stack []*ssa.BasicBlock
+	stack = append(stack, b.Succs...)
+	for len(stack) > 0 {
+		x := stack[len(stack)-1]
+		stack = stack[:len(stack)-1]
+		if x == join || blocks[x] {
+			continue
+		}
+		if x == b {
+			return r // loops back to the branch itself
+		}
+		blocks[x] = true
+		if len(blocks) > 16 {
+			return r
+		}
+		stack = append(stack, x.Succs...)
+	}
+	// the region must be acyclic and contain only simple instructions
+	for x := range blocks {
+		for y := range blocks {
+			if x == y && fi.reach[x.Index][x.Index] {
+				// x is on a cycle; allowed only if the cycle leaves the region (goes through b or join)
+				// conservatively reject
+				return r
+			}
+		}
+		for _, ins := range x.Instrs {
+			if !mergeableInstr(ins) {
+				return r
+			}
+		}
+	}
+	r.ok = true
+	r.join = join
+	r.blocks = blocks
+	return r
+}
+
+func mergeableInstr(ins ssa.Instruction) bool {
+	switch x := ins.(type) {
+	case *ssa.BinOp:
+		// division may raise an obligation but is fine
+		return true
+	case *ssa.UnOp:
+		return x.Op != token.ARROW
+	case *ssa.Convert, *ssa.ChangeType, *ssa.IndexAddr, *ssa.Index, *ssa.FieldAddr, *ssa.Field, *ssa.Slice,
+		*ssa.Phi, *ssa.Store, *ssa.If, *ssa.Jump, *ssa.Extract, *ssa.DebugRef:
+		return true
+	case *ssa.Call:
+		if b, ok := x.Call.Value.(*ssa.Builtin); ok {
+			switch b.Name() {
+			case "len", "cap", "min", "max":
+				return true
+			}
+		}
+		return false
+	}
+	return false
+}
+
+func (e *Engine) tryMerge(st *State, f *Frame, x *ssa.If, c *Term) (int, bool) {
+	if e.cfg.NoMerge || st.inArm > 8 {
+		return 0, false
+	}
+	ri := e.mergeRegion(f.blk)
+	if !ri.ok {
+		return 0, false
+	}
+	// both sides must be feasible, otherwise ordinary branching is cheaper
+	if !e.feasible(st, c) || !e.feasible(st, Not(c)) {
+		return 0, false
+	}
+	var arms [2]*State
+	var preds [2]*ssa.BasicBlock
+	ok := true
+	func() {
+		defer func() {
+			if r := recover(); r != nil {
+				if _, isAbort := r.(mergeAbort); isAbort {
+					ok = false
+					return
+				}
+				panic(r)
+			}
+		}()
+		for k := 0; k < 2; k++ {
+			a := st.clone()
+			cond := c
+			if k == 1 {
+				cond = Not(c)
+			}
+			a.assume(cond)
+			a.inArm = st.inArm + 1
+			af := a.top()
+			af.stopAt = ri.join
+			af.stopped = false
+			succ := af.blk.Succs[k]
+			if succ == ri.join {
+				af.prev = af.blk
+				af.stopped = true
+			} else {
+				e.gotoBlock(a, af, succ)
+			}
+			steps := 0
+			for !af.stopped {
+				if a.top() != af {
+					panic(mergeAbort{"call inside arm"})
+				}
+				r := e.step(a)
+				steps++
+				if r == stDone {
+					// arm died (infeasible after an obligation) or violated: treat as dead arm
+					a = nil
+					break
+				}
+				if steps > 4000 {
+					panic(mergeAbort{"arm too long"})
+				}
+			}
+			if a != nil {
+				preds[k] = af.prev
+				af.stopAt = nil
+				af.stopped = false
+				a.inArm = st.inArm
+			}
+			arms[k] = a
+		}
+	}()
+	if !ok {
+		e.res.MergeFails++
+		return 0, false
+	}
+	switch {
+	case arms[0] == nil && arms[1] == nil:
+		return stDone, true
+	case arms[0] == nil || arms[1] == nil:
+		k := 0
+		if arms[0] == nil {
+			k = 1
+		}
+		e.adopt(st, arms[k])
+		nf := st.top()
+		nf.blk = preds[k]
+		e.gotoBlock(st, nf, ri.join)
+		return stCont, true
+	}
+	m, mok := e.mergeStates(st, c, arms[0], arms[1], preds, ri.join)
+	if !mok {
+		e.res.MergeFails++
+		return 0, false
+	}
+	e.adopt(st, m)
+	e.res.Merges++
+	return stCont, true
+}
+
+// adopt replaces the contents of st with those of src (st is the state object the run loop holds).
+func (e *Engine) adopt(st *State, src *State) {
+	id := st.id
+	*st = *src
+	st.id = id
+}
+
+func (e *Engine) mergeStates(base *State, c *Term, a, b *State, preds [2]*ssa.BasicBlock, join *ssa.BasicBlock) (*State, bool) {
+	m := a // reuse a's containers
+	// path condition: base prefix, then guarded extras
+	n := len(base.pc)
+	pc := append([]*Term(nil), base.pc...)
+	for _, t := range a.pc[n:] {
+		if t != c {
+			pc = append(pc, Implies(c, t))
+		}
+	}
+	nc := Not(c)
+	for _, t := range b.pc[n:] {
+		if t != nc {
+			pc = append(pc, Implies(nc, t))
+		}
+	}
+	// heap
+	for id, oa := range a.heap {
+		ob, ok := b.heap[id]
+		if !ok {
+			return nil, false
+		}
+		if oa == ob {
+			continue
+		}
+		v, ok := mergeVal(c, oa.val, ob.val)
+		if !ok {
+			return nil, false
+		}
+		no := *oa
+		no.val = v
+		m.heap[id] = &no
+	}
+	if len(b.heap) != len(a.heap) {
+		return nil, false
+	}
+	// phis of the join block
+	fa, fb := a.top(), b.top()
+	var phis []*ssa.Phi
+	var vals []Value
+	for _, ins := range join.Instrs {
+		phi, ok := ins.(*ssa.Phi)
+		if !ok {
+			break
+		}
+		var va, vb Value
+		for i, p := range join.Preds {
+			if p == preds[0] {
+				va = e.eval(a, fa, phi.Edges[i])
+			}
+			if p == preds[1] {
+				vb = e.eval(b, fb, phi.Edges[i])
+			}
+		}
+		v, ok := mergeVal(c, va, vb)
+		if !ok {
+			return nil, false
+		}
+		phis = append(phis, phi)
+		vals = append(vals, v)
+	}
+	// other state components must agree
+	if len(a.nondets) != len(b.nondets) || len(a.events) != len(b.events) || len(a.frames) != len(b.frames) {
+		return nil, false
+	}
+	m.pc = pc
+	m.steps = a.steps + b.steps - base.steps
+	for k, v := range b.known {
+		if _, ok := m.known[k]; !ok {
+			delete(m.known, k)
+		}
+		_ = v
+	}
+	for k := range m.known {
+		if _, ok := b.known[k]; !ok {
+			delete(m.known, k)
+		}
+	}
+	for i, phi := range phis {
+		fa.regs[phi] = vals[i]
+	}
+	fa.prev = preds[0]
+	fa.blk = join
+	fa.ip = len(phis)
+	m.path = append(base.path[:len(base.path):len(base.path)], "merge@"+join.String())
+	return m, true
+}
+
+func mergeVal(c *Term, a, b Value) (Value, bool) {
+	if a == b {
+		return a, true
+	}
+	switch x := a.(type) {
+	case nil:
+		return nil, b == nil
+	case *Term:
+		y, ok := b.(*Term)
+		if !ok || x.w != y.w {
+			return nil, false
+		}
+		return Ite(c, x, y), true
+	case *BytesVal:
+		y, ok := b.(*BytesVal)
+		if !ok {
+			return nil, false
+		}
+		n := x.n
+		if x.n != y.n {
+			n = Ite(c, x.n, y.n)
+		}
+		return &BytesVal{mem: memIte(c, x.mem, y.mem), n: n}, true
+	case *StructVal:
+		y, ok := b.(*StructVal)
+		if !ok || len(x.f) != len(y.f) {
+			return nil, false
+		}
+		f := make([]Value, len(x.f))
+		for i := range f {
+			v, ok := mergeVal(c, x.f[i], y.f[i])
+			if !ok {
+				return nil, false
+			}
+			f[i] = v
+		}
+		return &StructVal{f}, true
+	case *ArrayVal:
+		y, ok := b.(*ArrayVal)
+		if !ok || len(x.e) != len(y.e) {
+			return nil, false
+		}
+		f := make([]Value, len(x.e))
+		for i := range f {
+			v, ok := mergeVal(c, x.e[i], y.e[i])
+			if !ok {
+				return nil, false
+			}
+			f[i] = v
+		}
+		return &ArrayVal{f}, true
+	case *TupleVal:
+		y, ok := b.(*TupleVal)
+		if !ok || len(x.e) != len(y.e) {
+			return nil, false
+		}
+		f := make([]Value, len(x.e))
+		for i := range f {
+			v, ok := mergeVal(c, x.e[i], y.e[i])
+			if !ok {
+				return nil, false
+			}
+			f[i] = v
+		}
+		return &TupleVal{f}, true
+	case *PtrVal:
+		y, ok := b.(*PtrVal)
+		if !ok || x.obj != y.obj || !samePath(x.path, y.path) || (x.idx == nil) != (y.idx == nil) || x.fn != y.fn {
+			return nil, false
+		}
+		if x.idx == nil {
+			return x, true
+		}
+		return &PtrVal{obj: x.obj, path: x.path, idx: Ite(c, x.idx, y.idx)}, true
+	case *SliceVal:
+		y, ok := b.(*SliceVal)
+		if !ok || x.obj != y.obj || !samePath(x.path, y.path) {
+			return nil, false
+		}
+		if x.obj == 0 {
+			return x, true
+		}
+		return &SliceVal{obj: x.obj, path: x.path, off: Ite(c, x.off, y.off), len: Ite(c, x.len, y.len), cap: Ite(c, x.cap, y.cap)}, true
+	case *StrVal:
+		y, ok := b.(*StrVal)
+		if ok && x.conc && y.conc && x.s == y.s {
+			return x, true
+		}
+		return nil, false
+	case *IfaceVal:
+		y, ok := b.(*IfaceVal)
+		if !ok {
+			return nil, false
+		}
+		if x.t == nil && y.t == nil {
+			return x, true
+		}
+		if x.t == nil || y.t == nil || x.t != y.t {
+			return nil, false
+		}
+		v, ok := mergeVal(c, x.v, y.v)
+		if !ok {
+			return nil, false
+		}
+		return &IfaceVal{t: x.t, v: v}, true
+	case *MapVal:
+		y, ok := b.(*MapVal)
+		return x, ok && x.obj == y.obj
+	case *ChanVal:
+		y, ok := b.(*ChanVal)
+		return x, ok && x.obj == y.obj
+	case *FuncVal:
+		y, ok := b.(*FuncVal)
+		return x, ok && x.fn == y.fn && x.builtin == y.builtin && x.nilf == y.nilf && len(x.bind) == 0 && len(y.bind) == 0
+	case *MapContent:
+		return nil, false
+	}
+	return nil, false
+}
